@@ -540,6 +540,32 @@ const GATES: &[(&str, &str, &str)] = &[
     ("Bits::as_limbs_mut", "v.as_limbs_mut()[{L} - 1] = u64::MAX;", "{ let mut v = ruint::Bits::<{B}, {L}>::ZERO; {STMT} v.into_inner() }"),
 ];
 
+/// rand 0.8 generator whose every output bit is one
+const ONES_RNG: &str = "struct Ones; impl rand_08::RngCore for Ones { fn next_u32(&mut self) -> u32 { !0 } fn next_u64(&mut self) -> u64 { !0 } fn fill_bytes(&mut self, d: &mut [u8]) { for b in d.iter_mut() { *b = 0xff; } } fn try_fill_bytes(&mut self, d: &mut [u8]) -> Result<(), rand_08::Error> { self.fill_bytes(d); Ok(()) } }";
+
+/// producers of the rand-0.8-only configuration (well-formed types; the value must be canonical)
+const RAND08: &[(&str, &str)] = &[
+    ("randomize_with", "{ {ONES} let mut v = <{T}>::ZERO; v.randomize_with(&mut Ones); v }"),
+    ("random_with", "{ {ONES} <{T}>::random_with(&mut Ones) }"),
+    ("Rng::gen", "{ {ONES} rand_08::Rng::gen::<{T}>(&mut Ones) }"),
+    ("Rng::sample(Standard)", "{ {ONES} rand_08::Rng::sample::<{T}, _>(&mut Ones, rand_08::distributions::Standard) }"),
+    ("random() x64", "{ let mut acc = <{T}>::ZERO; for _ in 0..64 { acc = acc | <{T}>::random(); } acc }"),
+    ("randomize() x64", "{ let mut acc = <{T}>::ZERO; for _ in 0..64 { let mut v = <{T}>::ZERO; v.randomize(); acc = acc | v; } acc }"),
+];
+
+/// parses the `OBTAINED n [bytes]` line of a probe and tells whether all bits at positions >= bits are zero
+fn dumped_canonical(line: &str, bits: usize) -> Option<bool> {
+    let inner = line.split('[').nth(1)?.split(']').next()?;
+    let bytes: Vec<u8> = inner.split(',').filter_map(|t| t.trim().parse::<u8>().ok()).collect();
+    if bytes.is_empty() && !inner.trim().is_empty() {
+        return None;
+    }
+    Some(bytes.iter().enumerate().all(|(i, b)| {
+        let lo = 8 * i;
+        if lo >= bits { *b == 0 } else if lo + 8 > bits { *b >> (bits - lo) == 0 } else { true }
+    }))
+}
+
 fn probe_src(bits: usize, limbs: usize, expr: &str) -> String {
     let t = format!("ruint::Uint<{bits}, {limbs}>");
     let e = expr.replace("{T}", &t).replace("{B}", &bits.to_string()).replace("{L}", &limbs.to_string()).replace("{BY}", &((bits + 7) / 8).to_string());
@@ -725,6 +751,53 @@ fn part_b(args: &Args) -> ExtraResult {
         ex.coverage.insert("unsafe_gate_rejected_at_compile_time".into(), json!(gate_ok));
         ex.coverage.insert("unsafe_gate_vacuous".into(), json!(gate_vacuous));
     }
+    // Part D: the feature configuration `rand` without `rand-09` (the only one that compiles the
+    // rand-0.8 inherent generators): every value handed out by them must be canonical. The
+    // all-ones generator makes a missing mask visible in one draw; the thread-RNG forms are OR-ed
+    // over 64 draws.
+    {
+        let env2 = match ProbeEnv::prepare_pkg(&harness_dir, "probe_pkg_rand08", "c04_rand08", &["ruint", "rand_08"]) {
+            Ok(e) => e,
+            Err(e) => harness_error(&e),
+        };
+        let mut probes: Vec<(usize, usize, usize)> = vec![];
+        for (b, l) in [(7usize, 1usize), (63, 1), (64, 1), (65, 2), (100, 2)] {
+            for g in 0..RAND08.len() {
+                probes.push((b, l, g));
+            }
+        }
+        let res = par_map(&probes, args.threads, |k, (b, l, g)| obtained(&env2, &format!("r08_{k}"), *b, *l, &RAND08[*g].1.replace("{ONES}", ONES_RNG)));
+        let mut ok_n = 0u64;
+        let mut broken = vec![];
+        for ((b, l, g), (ok, msg)) in probes.iter().zip(res.iter()) {
+            ex.evaluations += 1;
+            let name = RAND08[*g].0;
+            if !*ok {
+                // the program must build and run in this configuration: otherwise the probe is vacuous
+                broken.push(format!("{name} at BITS={b}: {msg}"));
+                continue;
+            }
+            match dumped_canonical(msg, *b) {
+                Some(true) => ok_n += 1,
+                Some(false) => {
+                    let class = format!("non_canonical_value:rand08_only:{name}");
+                    println!("failure: features [std, rand] without rand-09: {name} handed out a non-canonical Uint<{b}, {l}>: {msg}");
+                    if seen.insert(class.clone()) {
+                        let p = write_replay_value(&args.root, "C04", "rand08_config", &json!({"property": "C04", "rule": "rand08_config_probe", "bits": b, "limbs": l, "constructor": name, "expr": RAND08[*g].1.replace("{ONES}", ONES_RNG), "check": "rand08_config_probe", "failure_class": class, "message": msg}));
+                        ex.violations.push((class, p));
+                    }
+                }
+                None => broken.push(format!("{name} at BITS={b}: unparsable dump {msg}")),
+            }
+        }
+        if broken.len() * 2 > probes.len() {
+            harness_error(&format!("rand-0.8-only probes did not run: {}", broken.join("; ")));
+        }
+        ex.coverage.insert("rand08_config_probes".into(), json!(probes.len()));
+        ex.coverage.insert("rand08_config_canonical".into(), json!(ok_n));
+        ex.coverage.insert("rand08_config_vacuous".into(), json!(broken));
+        let _ = std::fs::remove_dir_all(&env2.work);
+    }
     ex.coverage.insert("ill_formed_probes".into(), json!(items.len()));
     ex.coverage.insert("ill_formed_probe_space".into(), json!(all.len()));
     ex.coverage.insert("ill_formed_space_exhausted".into(), json!(items.len() == all.len()));
@@ -758,12 +831,28 @@ fn main() {
             println!("REPLAY-PASS property=C04");
             std::process::exit(0);
         }
+        if v["rule"] == "rand08_config_probe" {
+            let harness_dir = PathBuf::from(env!("CARGO_MANIFEST_DIR"));
+            let env = match ProbeEnv::prepare_pkg(&harness_dir, "probe_pkg_rand08", "c04_replay08", &["ruint", "rand_08"]) {
+                Ok(e) => e,
+                Err(e) => harness_error(&e),
+            };
+            let bits = v["bits"].as_u64().unwrap_or(0) as usize;
+            let (ok, msg) = obtained(&env, "replay", bits, v["limbs"].as_u64().unwrap_or(0) as usize, v["expr"].as_str().unwrap_or(""));
+            println!("replay: {msg}");
+            if ok && dumped_canonical(&msg, bits) == Some(false) {
+                println!("VIOLATION property=C04 replay={}", path.display());
+                std::process::exit(1);
+            }
+            println!("REPLAY-PASS property=C04");
+            std::process::exit(0);
+        }
     } else if args.only.is_none() {
         set_extra(part_b(&args));
     }
     let spec = PropSpec {
         id: "C04",
-        rule_text: "Part A: register machine with 4 registers of Uint<BITS> and 2 of a second width; histories = 1..39 steps drawn from a catalogue of 144 safe public producers (constants; from_limbs / from_limbs_slice and its checked / wrapping / overflowing / saturating forms incl. out-of-range and over-long limb vectors; conversions from u64/i64/u128/i128/f64/f32 and other-width Uints; byte, string, digit decoders on generated inputs; all arithmetic, bit, shift, rotate, modular, gcd, pow, root operations; set_bit incl. out-of-range indices; rand 0.8 / 0.9 with seeded RNGs, random() and randomize() on the thread-local RNG (checked, never stored), arbitrary over generated bytes, proptest any() incl. shrunk values, quickcheck; serde_json, bincode, rlp, alloy-rlp, SCALE fixed/compact, SSZ, borsh, DER decoders fed encodings of the other-width registers; num-traits constructors; BigUint/BigInt conversions; Sum/Product; Bits wrapper). A step that panics leaves the registers unchanged. Invariant after every step: every register canonical (bits >= BITS zero, read through as_limbs), and for every register pair ==, Hash (SipHash, fixed keys), cmp, partial_cmp, <, <=, >, >=, min, max, is_zero agree with the integers. Exhaustive for BITS in {1,2,3,5,6}: all (a,b) pairs x every producer. Non-trivial history: non-aligned width and some step produced a value with bit BITS-1 set or was handed out-of-range input. Part B: generated programs for every ill-formed (BITS,LIMBS) in {0,1,63,64,65,128,129} x {0,1,2,3} x a catalogue of 60 constants/constructors; each obtains the value and dumps its raw memory without calling another Uint method; a compile error or run-time panic is correct, printing OBTAINED is a violation; every catalogue entry has control twins (well-formed LIMBS at 64 and 129 bits) that must print OBTAINED. Part C: programs that write a non-canonical limb through Uint::as_limbs_mut, Uint::as_le_slice_mut and Bits::as_limbs_mut without an `unsafe` block must be rejected by the compiler (twins with the block are the controls).",
+        rule_text: "Part A: register machine with 4 registers of Uint<BITS> and 2 of a second width; histories = 1..39 steps drawn from a catalogue of 144 safe public producers (constants; from_limbs / from_limbs_slice and its checked / wrapping / overflowing / saturating forms incl. out-of-range and over-long limb vectors; conversions from u64/i64/u128/i128/f64/f32 and other-width Uints; byte, string, digit decoders on generated inputs; all arithmetic, bit, shift, rotate, modular, gcd, pow, root operations; set_bit incl. out-of-range indices; rand 0.8 / 0.9 with seeded RNGs, random() and randomize() on the thread-local RNG (checked, never stored), arbitrary over generated bytes, proptest any() incl. shrunk values, quickcheck; serde_json, bincode, rlp, alloy-rlp, SCALE fixed/compact, SSZ, borsh, DER decoders fed encodings of the other-width registers; num-traits constructors; BigUint/BigInt conversions; Sum/Product; Bits wrapper). A step that panics leaves the registers unchanged. Invariant after every step: every register canonical (bits >= BITS zero, read through as_limbs), and for every register pair ==, Hash (SipHash, fixed keys), cmp, partial_cmp, <, <=, >, >=, min, max, is_zero agree with the integers. Exhaustive for BITS in {1,2,3,5,6}: all (a,b) pairs x every producer. Non-trivial history: non-aligned width and some step produced a value with bit BITS-1 set or was handed out-of-range input. Part B: generated programs for every ill-formed (BITS,LIMBS) in {0,1,63,64,65,128,129} x {0,1,2,3} x a catalogue of 60 constants/constructors; each obtains the value and dumps its raw memory without calling another Uint method; a compile error or run-time panic is correct, printing OBTAINED is a violation; every catalogue entry has control twins (well-formed LIMBS at 64 and 129 bits) that must print OBTAINED. Part C: programs that write a non-canonical limb through Uint::as_limbs_mut, Uint::as_le_slice_mut and Bits::as_limbs_mut without an `unsafe` block must be rejected by the compiler (twins with the block are the controls). Part D: in the feature configuration [std, rand] without rand-09 (second probe package) the rand-0.8 inherent generators randomize_with, random_with, Rng::gen, Rng::sample on an all-ones generator and random(), randomize() OR-ed over 64 thread-RNG draws must hand out canonical values at 7, 63, 64, 65 and 100 bits.",
         assumptions: vec![
             "Part A keeps no model of the operations' semantics: it can only alarm about the invariant",
             "quickcheck::Gen cannot be seeded: its values are checked but not reproducible from the seed (failing values are saved in the replay file)",
